@@ -6,25 +6,35 @@ tier = sys.argv[1] if len(sys.argv) > 1 and sys.argv[1] in ("quick", "thorough")
 only = [a for a in sys.argv[1:] if a not in ("quick", "thorough")]
 root = "/verif/seeded"
 out = {}
-assert subprocess.run("git -C /repo status --porcelain", shell=True, capture_output=True, text=True).stdout.strip() == "", "/repo not clean"
-for d in sorted(os.listdir(root)):
+import concurrent.futures
+par = int(os.environ.get("SWEEP_PAR", "2"))
+def one(d):
     p = os.path.join(root, d, "patch.diff")
-    if not os.path.exists(p) or (only and d not in only):
-        continue
     pid = d.split("-")[0]
-    r = subprocess.run(["git", "-C", "/repo", "apply", p], capture_output=True, text=True)
-    if r.returncode != 0:
-        out[d] = {"error": "patch does not apply"}
-        print(d, "PATCH DOES NOT APPLY"); continue
+    wt = "/tmp/sweepwt-" + d
+    subprocess.run("git -C /repo worktree remove --force %s 2>/dev/null; rm -rf %s" % (wt, wt), shell=True)
+    r = subprocess.run("git -C /repo worktree add -q --detach %s HEAD && git -C %s apply %s" % (wt, wt, p), shell=True, capture_output=True, text=True)
     try:
+        if r.returncode != 0:
+            return d, {"error": "patch does not apply: " + r.stderr[-200:]}
         t0 = time.time()
-        c = subprocess.run(["/verif/check", pid, tier], capture_output=True, text=True)
+        env = dict(os.environ, VERIF_REPO=wt, VERIF_EVIDENCE="/tmp/seed-evidence", VERIF_REPLAYS="/tmp/seed-replays/" + d)
+        c = subprocess.run(["/verif/check", pid, tier], capture_output=True, text=True, env=env)
         sigs = [l[4:].strip()[:80] for l in c.stdout.splitlines() if l.startswith("--- ")]
-        out[d] = {"check": pid, "exit": c.returncode, "signatures": sigs[:5], "wall_s": round(time.time() - t0, 1)}
-        print(d, "exit", c.returncode, sigs[:3], out[d]["wall_s"], "s")
+        return d, {"check": pid, "exit": c.returncode, "signatures": sigs[:5], "wall_s": round(time.time() - t0, 1)}
     finally:
-        subprocess.run("git -C /repo checkout -- . && git -C /repo clean -fdq", shell=True)
+        subprocess.run("git -C /repo worktree remove --force %s; rm -rf %s /verif/.build/%s-_tmp_sweepwt-%s" % (wt, wt, pid, d), shell=True)
+todo = [d for d in sorted(os.listdir(root)) if os.path.exists(os.path.join(root, d, "patch.diff")) and (not only or d in only)]
+prev = {}
+sp = os.path.join(root, "SWEEP_%s.json" % tier)
+if only and os.path.exists(sp):
+    prev = json.load(open(sp))
+with concurrent.futures.ThreadPoolExecutor(max_workers=par) as ex:
+    for d, res in ex.map(one, todo):
+        out[d] = res
+        print(d, res.get("exit", res.get("error")), res.get("signatures", [])[:3], res.get("wall_s"))
+prev.update(out)
+out = prev
 json.dump(out, open(os.path.join(root, "SWEEP_%s.json" % tier), "w"), indent=1)
 missed = [d for d, r in out.items() if r.get("exit") != 1]
 print("caught %d of %d; not caught: %s" % (len(out) - len(missed), len(out), missed))
-subprocess.run("rm -rf /verif/replays", shell=True)
